@@ -417,3 +417,44 @@ Proof.
   { apply run_app in H1. destruct H1 as (w0 & _ & H1). cbn in H1. inversion H1; subst. reflexivity. }
   split; [assumption|]. apply (silent_when_closed c es2 w1 w (run_inv c _ _ _ (inv0 c) H1) Hcl H2).
 Qed.
+
+(* ------------------------------------------------------------ backoff *)
+Lemma bo_after_closed k : bo_after (S k) = N.min (1000 * 2 ^ N.of_nat k) bo_max.
+Proof.
+  induction k as [|k IH]; [reflexivity|].
+  change (bo_after (S (S k))) with (snd (bo_duration (bo_after (S k)))). rewrite IH.
+  unfold bo_duration, bo_max. cbn [snd].
+  rewrite Nat2N.inj_succ, N.pow_succ_r'.
+  assert (1 <= 2 ^ N.of_nat k) by (pose proof (N.pow_nonzero 2 (N.of_nat k) ltac:(discriminate)); lia).
+  set (x := 2 ^ N.of_nat k) in *.
+  destruct (N.min (1000 * x) 120000 =? 0) eqn:E; lia.
+Qed.
+
+(* first retry immediately, then 1 s, doubling, never more than 2 minutes *)
+Theorem backoff_delay_spec k :
+  bo_delay k = match k with O => 0 | S j => N.min (1000 * 2 ^ N.of_nat j) bo_max end.
+Proof. unfold bo_delay, bo_duration. cbn [fst]. destruct k; [reflexivity | apply bo_after_closed]. Qed.
+
+Theorem backoff_monotone k : bo_delay k <= bo_delay (S k) /\ bo_delay k <= bo_max.
+Proof.
+  rewrite !backoff_delay_spec. destruct k as [|k]; [unfold bo_max; split; lia|].
+  rewrite Nat2N.inj_succ, N.pow_succ_r'. unfold bo_max.
+  assert (1 <= 2 ^ N.of_nat k) by (pose proof (N.pow_nonzero 2 (N.of_nat k) ltac:(discriminate)); lia).
+  set (x := 2 ^ N.of_nat k) in *. lia.
+Qed.
+
+(* a success (Reset) starts the streak afresh: the next failure is retried at once *)
+Theorem backoff_reset ops1 ops2 b :
+  bo_run b (ops1 ++ false :: ops2) = bo_run b ops1 ++ bo_run bo_reset ops2.
+Proof.
+  revert b. induction ops1 as [|o ops1 IH]; intros b; [reflexivity|].
+  destruct o; cbn [app bo_run]; rewrite IH; reflexivity.
+Qed.
+
+Theorem backoff_streak k : bo_run bo_reset (repeat true k) = map bo_delay (seq 0 k).
+Proof.
+  assert (H : forall j, bo_run (bo_after j) (repeat true k) = map bo_delay (seq j k)).
+  { induction k as [|k IH]; intros j; [reflexivity|].
+    cbn [repeat bo_run seq map]. f_equal. apply (IH (S j)). }
+  exact (H O).
+Qed.
